@@ -1,7 +1,7 @@
 (** * C07 — delegation to a separately implemented trait: [#[entrait(TraitImpl, delegate_by = ..)] trait] and [#[entrait] impl] *)
 From Coq Require Import List String Ascii Bool.
 From Entrait Require Import Tok Syn Opts Split FnParams Convert Codegen Expand Proj Proj2 Proj3 Examples.
-From Entrait.Proofs Require Import Base Shapes NonVac PFnParams PC16 PC01 PC06 PC07.
+From Entrait.Proofs Require Import Base Shapes NonVac PFnParams PC16 PC01 PC06 PC07 Sem Sem2.
 Import ListNotations.
 Local Open Scope list_scope.
 
@@ -90,6 +90,21 @@ Theorem c07_impl_block : forall v attr h tp st body sigs sf items,
     bodies_ok true false (src_names_async (body_fns bitems)) (impl_fns im) = true.
 Proof. exact c07_impl_expansion. Qed.
 Print Assumptions c07_impl_block.
+
+(** What the method of [Impl<T>] does under dependency inversion (mini-semantics, Proofs/Sem2.v): evaluating its body
+    with the method's parameters bound positionally performs exactly one call — of [<T::Target as It<T>>::m] (static
+    selection) or of method [m] of the [dyn It<T>] object obtained from [T] through [AsRef] / [Borrow] (dynamic) —
+    with the caller's [&Impl<T>] as first argument, then the caller's arguments 0..n-1 in declared order, awaited iff
+    async; for every signature and both kinds of selection. *)
+Theorem c07_call_semantics : forall a ca s it,
+  ta_impl_trait a = Some it ->
+  (exists d, ta_delegate a = Some (ByTrait d)) \/ (exists r, ta_delegate a = Some (ByRef r)) ->
+  NoDup (typed_names s) -> ~ In "self"%string (typed_names s) ->
+  eval_provider_call (typed_names s)
+    [TG Brace (c06_call a ca s ++ (if s_async s then [pc "."; TId "await"] else []))]
+  = Some (mkEvent (c07_callee a it (s_name s)) (VSelf :: map VArg (seq 0 (List.length (typed_names s)))) (s_async s)).
+Proof. exact c07_call_event. Qed.
+Print Assumptions c07_call_semantics.
 
 (** The predicate the checker evaluates on the implementation's output holds of every model expansion. *)
 Theorem c07_view_sound : forall v attr i items,
